@@ -328,6 +328,46 @@ func Or(xs ...*Term) *Term {
 			return r
 		}
 	}
+	if len(out) > 2 {
+		// keep the conjuncts common to all disjuncts at top level
+		common := map[int]*Term{}
+		for _, x := range conj(out[0]) {
+			common[x.id] = x
+		}
+		for _, d := range out[1:] {
+			in := map[int]bool{}
+			for _, x := range conj(d) {
+				in[x.id] = true
+			}
+			for id := range common {
+				if !in[id] {
+					delete(common, id)
+				}
+			}
+			if len(common) == 0 {
+				break
+			}
+		}
+		if len(common) > 0 {
+			var cs []*Term
+			for _, x := range conj(out[0]) {
+				if common[x.id] != nil {
+					cs = append(cs, x)
+				}
+			}
+			var rests []*Term
+			for _, d := range out {
+				var r []*Term
+				for _, x := range conj(d) {
+					if common[x.id] == nil {
+						r = append(r, x)
+					}
+				}
+				rests = append(rests, And(r...))
+			}
+			return And(append(cs, Or(rests...))...)
+		}
+	}
 	return mk("or", BoolS, out...)
 }
 
@@ -695,9 +735,76 @@ func ModE(a, b *Term) *Term {
 	return mk("mod", IntS, a, b)
 }
 
+// intBounds computes syntactic bounds of small integer terms (sums of ites of constants).
+func intBounds(t *Term, d int) (lo, hi *big.Int, ok bool) {
+	if d > 12 {
+		return nil, nil, false
+	}
+	switch t.Op {
+	case "int":
+		return t.IVal, t.IVal, true
+	case "ite":
+		l1, h1, ok1 := intBounds(t.Args[1], d+1)
+		l2, h2, ok2 := intBounds(t.Args[2], d+1)
+		if !ok1 || !ok2 {
+			return nil, nil, false
+		}
+		lo, hi = l1, h1
+		if l2.Cmp(lo) < 0 {
+			lo = l2
+		}
+		if h2.Cmp(hi) > 0 {
+			hi = h2
+		}
+		return lo, hi, true
+	case "+":
+		lo, hi = big.NewInt(0), big.NewInt(0)
+		for _, a := range t.Args {
+			l, h, ok := intBounds(a, d+1)
+			if !ok {
+				return nil, nil, false
+			}
+			lo = new(big.Int).Add(lo, l)
+			hi = new(big.Int).Add(hi, h)
+		}
+		return lo, hi, true
+	}
+	return nil, nil, false
+}
+
+func boundsDecide(a, b *Term, strict bool) *Term {
+	if (a.Op != "int" && a.Op != "ite" && a.Op != "+") || (b.Op != "int" && b.Op != "ite" && b.Op != "+") {
+		return nil
+	}
+	la, ha, ok1 := intBounds(a, 0)
+	lb, hb, ok2 := intBounds(b, 0)
+	if !ok1 || !ok2 {
+		return nil
+	}
+	if strict {
+		if ha.Cmp(lb) < 0 {
+			return True
+		}
+		if la.Cmp(hb) >= 0 {
+			return False
+		}
+	} else {
+		if ha.Cmp(lb) <= 0 {
+			return True
+		}
+		if la.Cmp(hb) > 0 {
+			return False
+		}
+	}
+	return nil
+}
+
 func Lt(a, b *Term) *Term {
 	if a.Op == "int" && b.Op == "int" {
 		return BoolT(a.IVal.Cmp(b.IVal) < 0)
+	}
+	if r := boundsDecide(a, b, true); r != nil {
+		return r
 	}
 	ba, ka := linForm(a)
 	bb, kb := linForm(b)
@@ -715,6 +822,9 @@ func Lt(a, b *Term) *Term {
 func Le(a, b *Term) *Term {
 	if a.Op == "int" && b.Op == "int" {
 		return BoolT(a.IVal.Cmp(b.IVal) <= 0)
+	}
+	if r := boundsDecide(a, b, false); r != nil {
+		return r
 	}
 	ba, ka := linForm(a)
 	bb, kb := linForm(b)
@@ -811,9 +921,9 @@ func StrSubstr(s, off, n *Term) *Term {
 	}
 	return mk("str.substr", StringS, s, off, n)
 }
-func StrAt(s, i *Term) *Term          { return mk("str.at", StringS, s, i) }
-func StrToCode(s *Term) *Term         { return mk("str.to_code", IntS, s) }
-func StrFromInt(i *Term) *Term        { return mk("str.from_int", StringS, i) }
+func StrAt(s, i *Term) *Term   { return mk("str.at", StringS, s, i) }
+func StrToCode(s *Term) *Term  { return mk("str.to_code", IntS, s) }
+func StrFromInt(i *Term) *Term { return mk("str.from_int", StringS, i) }
 func StrReplaceAll(s, a, b *Term) *Term {
 	if s.Op == "str" && a.Op == "str" && b.Op == "str" && a.SVal != "" {
 		return StrT(strings.ReplaceAll(s.SVal, a.SVal, b.SVal))
@@ -950,10 +1060,10 @@ func FieldLoc(l *Term, k int) *Term {
 func ElemLoc(l, i *Term) *Term { return MkLoc(LocObj(l), PElem(LocPath(l), i)) }
 
 func MkSlice(base, off, ln, cp *Term) *Term { return Ctor(SliceS, "mkslice", base, off, ln, cp) }
-func SliceBase(s *Term) *Term                { return Sel(SliceS, "mkslice", "sbase", s) }
-func SliceOff(s *Term) *Term                 { return Sel(SliceS, "mkslice", "soff", s) }
-func SliceLen(s *Term) *Term                 { return Sel(SliceS, "mkslice", "slen", s) }
-func SliceCap(s *Term) *Term                 { return Sel(SliceS, "mkslice", "scap", s) }
+func SliceBase(s *Term) *Term               { return Sel(SliceS, "mkslice", "sbase", s) }
+func SliceOff(s *Term) *Term                { return Sel(SliceS, "mkslice", "soff", s) }
+func SliceLen(s *Term) *Term                { return Sel(SliceS, "mkslice", "slen", s) }
+func SliceCap(s *Term) *Term                { return Sel(SliceS, "mkslice", "scap", s) }
 
 var NilSlice = afterSorts(func() *Term { return MkSlice(NilLoc, IntT(0), IntT(0), IntT(0)) })
 
@@ -1259,7 +1369,6 @@ func Symbols(t *Term, into map[string]bool, seen map[int]bool) {
 	}
 }
 
-
 // Restrict simplifies t under the assumption that every conjunct of `pc`
 // holds: ite nodes whose condition (or its negation) is such a conjunct are
 // resolved.  Purely syntactic; sound because it only uses pc.
@@ -1353,4 +1462,22 @@ func Restrict(t *Term, pc *Term) *Term {
 		return r
 	}
 	return rec(t, 0)
+}
+
+// ElemIndex is the backing-array index of element i of a slice with offset
+// off.  With a symbolic offset it is an uninterpreted function (defined by
+// the axiom elemIndex(o,i) = o+i, added to every query that mentions it) so
+// that quantifier patterns over slice elements contain no arithmetic.
+var elemIndexUF = DeclUF("elemIndex", IntS, IntS, IntS)
+
+func ElemIndex(off, i *Term) *Term {
+	if off.Op == "int" {
+		return Add(off, i)
+	}
+	return App(elemIndexUF, off, i)
+}
+
+func ElemIndexAxiom() *Term {
+	o, i := BoundVar(IntS), BoundVar(IntS)
+	return Forall([]*Term{o, i}, Eq(App(elemIndexUF, o, i), Add(o, i)))
 }
